@@ -129,7 +129,7 @@ def solo(game, prune, facts):
         out.update(msg="Game solved", final_strategies=fin, reachability_strategies=rs, rewards=rew, probabilities=prob,
                    n_iterations_reach=i1, n_iterations_rew=i2, prob_min_rew=pmr, rew_min_reach=rmr, ok=True)
     elif o.kind in ("nosol", "valueerror"):
-        out.update(msg="Error while solving the game: " + str(o.exc), final_strategies=None,
+        out.update(msg=str(o.exc), msg_is_error_text=True, final_strategies=None,
                    reachability_strategies=None, rewards=None, probabilities=None, n_iterations_reach=0,
                    n_iterations_rew=0, prob_min_rew=0, rew_min_reach=0, ok=False)
     else:
@@ -172,7 +172,7 @@ def check_case(case):
         if a["ok"]:
             ref[names[i] + "_no_prune"] = b
         else:
-            ref[names[i] + "_no_prune"] = dict(b, msg="Game not solved", final_strategies=None,
+            ref[names[i] + "_no_prune"] = dict(b, msg=None, msg_is_error_text=False, msg_any_not_solved=True, final_strategies=None,
                                                reachability_strategies=None, rewards=None, probabilities=None,
                                                n_iterations_reach=0, n_iterations_rew=0, prob_min_rew=0, rew_min_reach=0)
         rm = False
@@ -225,6 +225,20 @@ def check_case(case):
             rf = ref[key]
             for f in FIELDS:
                 if f == "n_transitions" and rf[f] is None:
+                    continue
+                if f == "msg":
+                    # wording is not prescribed: a failing entry must carry the solver's error text, a not-solved
+                    # entry any message, a solved entry the same message in all runs (checked across runs below)
+                    m = e.get("msg")
+                    okm = isinstance(m, str) and (
+                        (rf.get("msg_is_error_text") and rf["msg"].lower() in m.lower() and e.get("rewards") is None) or
+                        (rf.get("msg_any_not_solved") and e.get("rewards") is None) or
+                        (rf.get("ok") and not rf.get("msg_any_not_solved") and e.get("rewards") is not None))
+                    if not okm:
+                        v.fail("batch-entry-differs-from-solo", f"{label}: entry {key} has message {m!r}; solving the "
+                                                                f"game alone gives {('error ' + rf['msg']) if rf.get('msg_is_error_text') else 'a result' if rf.get('ok') else 'no solve'}",
+                               sig="msg")
+                        break
                     continue
                 if f not in e:
                     v.fail("batch-field-missing", f"{label}: entry {key} lacks {f}", sig=f)
